@@ -169,11 +169,29 @@ class ZLog:
         return out
 
 
-def new_client(kind="lib", **opts):
+def user_factory(kind, opts, how):
+    """a factory as an application writes it: a subclass of the REAL VNCDoToolFactory (VNCDoCLIFactory for the CLI client) that
+    records connection events, with the options given as class attributes of the subclass (how='class') or set on the
+    instance after construction, as api.connect and vncdo do (how='instance')"""
+    from vncdotool import command
+    base = command.VNCDoCLIFactory if kind == "cli" else vclient.VNCDoToolFactory
+    ns = {"clientConnectionMade": lambda self, p: self.events.append(("cb", "made")),
+          "clientConnectionFailed": lambda self, p, reason: self.events.append(("cb", "connfailed")),
+          "clientConnectionLost": lambda self, p, reason: None, "events": None}
+    if how == "class":
+        ns.update(opts)
+    f = type("UserFactory", (base,), ns)()
+    if how == "instance":
+        for k, v in opts.items():
+            setattr(f, k, v)
+    return f
+
+
+def new_client(kind="lib", factory="standin", **opts):
     trace = []
     c = KINDS[kind]()
     c.transport = FakeTransport(trace)
-    c.factory = RecFac(**opts)
+    c.factory = RecFac(**opts) if factory == "standin" or kind == "base" else user_factory(kind, opts, factory)
     c.factory.events = trace
     zlog = []
     c._zlib_stream = ZLog(c._zlib_stream, zlog)
